@@ -4,6 +4,7 @@ import json
 import os
 import re
 import shutil
+import sys
 
 import callgen
 import genericgen
@@ -164,6 +165,7 @@ ILL = [
 
 
 def check(run):
+    sys.path.insert(0, os.path.dirname(os.path.abspath(__file__)))
     broken = []
     try:
         vlib.proof_stage(run, "C03", ["C03/Properties.v"], pins="C03")
@@ -227,6 +229,44 @@ def check(run):
             else:
                 ill_stats[why] = ill_stats.get(why, 0) + 1
         shutil.rmtree(root, ignore_errors=True)
+        # ---- the same single errors inside an imported package (not the entry package) of a project -----------------------
+        LIB_ILL = [(w_, s_) for w_, s_ in ILL if not any(x in s_ for x in ("pi(", "P {", "B(", "C(", "Tick", " A "))]
+        pbase = os.path.join(vlib.BUILD, "tmp", "c03illproj")
+        shutil.rmtree(pbase, ignore_errors=True)
+        pj_inputs, pj_meta = [], []
+        import c14 as c14mod
+
+        for i in range(12 if run.tier == "quick" else 150):
+            files = dict(c14mod.gen_project(rng)[0])
+            # only packages that the entry package reaches through imports are compiled at all
+            imps = lambda tx: re.findall(r"^import (\w+)", tx, re.M)
+            reach, todo = set(), imps("".join(v for f, v in files.items() if "/" not in f))
+            while todo:
+                x = todo.pop()
+                if x not in reach:
+                    reach.add(x)
+                    todo += imps("".join(v for f, v in files.items() if f.startswith(x + "/")))
+            libs = sorted(f for f in files if "/" in f and f.endswith(".gom") and f.split("/")[0] in reach)
+            if not libs:
+                continue
+            target = rng.choice(libs)
+            why, stmt = rng.choice(LIB_ILL)
+            files[target] = files[target] + "\nfn injected_ill_typed() -> unit {\n    %s\n    ()\n}\n" % stmt
+            d = os.path.join(pbase, "g%03d" % i)
+            for fn, tx in files.items():
+                os.makedirs(os.path.dirname(os.path.join(d, fn)), exist_ok=True)
+                with open(os.path.join(d, fn), "w") as f:
+                    f.write(tx)
+            pj_inputs.append({"path": d + "/main.gom", "timeout_ms": 20000})
+            pj_meta.append((why, target, files))
+        for (why, target, files), r in zip(pj_meta, vlib.run_harness("compile", pj_inputs, shards=vlib.NCPU)):
+            if r.get("ok"):
+                wits.append({"kind": "an ill-typed project was accepted (the error is in the imported package file %s): %s" % (target, why), "files": files})
+            elif "panic" in r or r.get("timeout"):
+                wits.append({"kind": "panic/hang instead of a type diagnostic (error in %s): %s" % (target, why), "files": files, "impl": {k: v for k, v in r.items() if k != "go"}})
+            else:
+                ill_stats["in an imported package"] = ill_stats.get("in an imported package", 0) + 1
+        shutil.rmtree(pbase, ignore_errors=True)
     except Broken as b:
         broken.append(b)
     # ---- known findings ------------------------------------------------------------------------------
